@@ -132,6 +132,12 @@ func cmdCheck(args []string) int {
 		if b.Flags["trusted"] {
 			continue
 		}
+		if b.Kind == "struct" {
+			x := e.runStructTags(b)
+			units = append(units, x)
+			obls = append(obls, x.obls...)
+			continue
+		}
 		if b.Kind == "lemma" {
 			x := e.runLemma(b)
 			units = append(units, x)
